@@ -145,7 +145,13 @@ func execReaderRun(run *readerRun, stream []byte, expected []byte, inject func(p
 			}
 		}
 		buf := make([]byte, n)
-		m, err := r.Read(buf)
+		var m int
+		var err error
+		if !guard(func() { m, err = r.Read(buf) }) {
+			flush()
+			evs = append(evs, tr.Ev{"ev": "Hang", "op": "Read", "len": n})
+			return evs
+		}
 		flush()
 		want := "overflow"
 		if m >= 0 && delivered+m <= len(expected) {
